@@ -433,10 +433,9 @@ func (c *Ctx) chFlags() (finished FieldRef, errF FieldRef, ok bool) {
 			}
 		}
 	}
-	st := a.Ch.Underlying().(*types.Struct)
-	for i := 0; i < st.NumFields(); i++ {
-		if types.TypeString(st.Field(i).Type(), nil) == "error" {
-			errF = FieldRef{a.Ch.Obj().Name(), st.Field(i).Name()}
+	for _, f := range flatFields(a.Ch) {
+		if types.TypeString(f.Type, nil) == "error" {
+			errF = FieldRef{a.Ch.Obj().Name(), f.Name}
 		}
 	}
 	ok = finished.Field != "" && errF.Field != ""
@@ -974,10 +973,9 @@ func ruleStickyAfterFinish(c *Ctx, rule string) {
 		rn := recvNamed(fn)
 		// entry: if readErr != nil return it
 		var errField FieldRef
-		st := rn.Underlying().(*types.Struct)
-		for i := 0; i < st.NumFields(); i++ {
-			if types.TypeString(st.Field(i).Type(), nil) == "error" {
-				errField = FieldRef{rn.Obj().Name(), st.Field(i).Name()}
+		for _, f := range flatFields(rn) {
+			if types.TypeString(f.Type, nil) == "error" {
+				errField = FieldRef{rn.Obj().Name(), f.Name}
 			}
 		}
 		okSticky := false
@@ -1122,11 +1120,12 @@ func ruleShutdownFlags(c *Ctx, rule string) {
 			if !w.isRoleCall(call, "serveTunnel") {
 				return
 			}
-			last := call.Call.Args[len(call.Call.Args)-1]
-			if mc, ok := last.(*ssa.MakeClosure); ok {
-				if strings.Contains(mc.Fn.Name(), "Load") && len(mc.Bindings) == 1 {
-					if fr, _, ok := fieldOfAddr(mc.Bindings[0]); ok && fr == flag {
-						okPred = true
+			for _, last := range flatArgs(call) {
+				if mc, ok := last.(*ssa.MakeClosure); ok {
+					if strings.Contains(mc.Fn.Name(), "Load") && len(mc.Bindings) == 1 {
+						if fr, _, ok := fieldOfAddr(mc.Bindings[0]); ok && fr == flag {
+							okPred = true
+						}
 					}
 				}
 			}
@@ -1157,14 +1156,15 @@ func ruleShutdownFlags(c *Ctx, rule string) {
 		if !w.isRoleCall(call, "serveTunnel") {
 			return
 		}
-		last := call.Call.Args[len(call.Call.Args)-1]
-		if mc, ok := last.(*ssa.MakeClosure); ok {
-			if bf, isF := mc.Fn.(*ssa.Function); isF {
-				allInstrs(bf, func(x ssa.Instruction) {
-					if ci, isC := x.(ssa.CallInstruction); isC && w.sameFn(staticCallee(ci), isc) {
-						okServe = true
-					}
-				})
+		for _, last := range flatArgs(call) {
+			if mc, ok := last.(*ssa.MakeClosure); ok {
+				if bf, isF := mc.Fn.(*ssa.Function); isF {
+					allInstrs(bf, func(x ssa.Instruction) {
+						if ci, isC := x.(ssa.CallInstruction); isC && w.sameFn(staticCallee(ci), isc) {
+							okServe = true
+						}
+					})
+				}
 			}
 		}
 	})
